@@ -228,6 +228,9 @@ func (c *Ctx) adp9() {
 		return
 	}
 
+	jn := c.acc("ADP-9", ad, "PUBREL→PUBLISH-junction-decided-by-adjacency(test-vectors)")
+	c.adp4Junction(ad, jn, lc, kinds)
+	jn.done(12, "for each representative pair the junction keeps adjacent sequences and drops the others")
 	accs := map[string]*acc{}
 	get := func(name string) *acc {
 		if accs[name] == nil {
@@ -235,7 +238,7 @@ func (c *Ctx) adp9() {
 		}
 		return accs[name]
 	}
-	for _, n := range []string{"Acked=first(ALO)", "atLeastOnce.acceptN=last(ALO)+1", "Completed=first(REL|EO)", "Received=last(REL)+1|Completed", "exactlyOnce.acceptN=last(EO|REL)+1", "submitN=acceptN"} {
+	for _, n := range []string{"Acked=first(ALO)", "atLeastOnce.acceptN=last(ALO)+1", "Completed=first(REL|EO)", "Received=last(REL)+1|Completed", "exactlyOnce.acceptN=last(EO|REL)+1", "submitN=acceptN", "non-empty-list⇒its-counters-installed"} {
 		get(n)
 	}
 
@@ -370,7 +373,12 @@ func (c *Ctx) adp9() {
 			}
 			return ""
 		}
+		var record func()
 		for i := range p.Events {
+			if record != nil {
+				record()
+				record = nil
+			}
 			e := &p.Events[i]
 			if e.Kind != pathx.KStore || e.Fn != ad {
 				continue
@@ -381,6 +389,16 @@ func (c *Ctx) adp9() {
 			}
 			role := pathx.RoleOfAddr(st.Addr).Key()
 			val := st.Val
+			// (recorded when the iteration is left, whichever way)
+			if role != "" {
+				roleNow, valNow, addrNow, iNow := role, val, st.Addr, i
+				record = func() {
+					stored[roleNow] = valNow
+					if roleNow == "seq.acceptN" {
+						stored["acceptN:"+instanceOf(addrNow, iNow)] = valNow
+					}
+				}
+			}
 			switch role {
 			case "orderedTxs.Acked":
 				a := get("Acked=first(ALO)")
@@ -408,6 +426,10 @@ func (c *Ctx) adp9() {
 				if loadOf(unwrap(val)) == "orderedTxs.Received" {
 					continue // the wrap adjustment of the value judged at its first store
 				}
+				if stored["orderedTxs.Completed"] == nil {
+					a.fail(p, i, "Received is installed before Completed on this path: what it is derived from, or compared with for the wrap, is still the zero value")
+					continue
+				}
 				if loadOf(val) == "orderedTxs.Completed" || (stored["orderedTxs.Completed"] != nil && expand(val, 0) == expand(stored["orderedTxs.Completed"], 0)) {
 					if empty[listREL] {
 						a.pass()
@@ -427,6 +449,14 @@ func (c *Ctx) adp9() {
 				inst := instanceOf(st.Addr, i)
 				x, inc := plus1(val)
 				cell, _, last := elem(x)
+				switch {
+				case inst == "atLeastOnce" && stored["orderedTxs.Acked"] == nil:
+					get("atLeastOnce.acceptN=last(ALO)+1").fail(p, i, "the at-least-once accept count is installed on a path that has not installed Acked: resend starts at sequence number zero")
+					continue
+				case inst == "exactlyOnce" && (stored["orderedTxs.Completed"] == nil || stored["orderedTxs.Received"] == nil):
+					get("exactlyOnce.acceptN=last(EO|REL)+1").fail(p, i, "the exactly-once accept count is installed on a path that has not installed both Completed and Received (Completed: %v, Received: %v)", stored["orderedTxs.Completed"] != nil, stored["orderedTxs.Received"] != nil)
+					continue
+				}
 				switch inst {
 				case "atLeastOnce":
 					a := get("atLeastOnce.acceptN=last(ALO)+1")
@@ -458,13 +488,361 @@ func (c *Ctx) adp9() {
 					a.fail(p, i, "submitN is set to %s, want the accept count: adopted records count as submitted (resend sets DUP)", Expr(expand(val, 0)))
 				}
 			}
-			if role != "" {
-				stored[role] = val
+		}
+		// whoever queues placeholders (or returns the client) for a non-empty list has installed its counters
+		if record != nil {
+			record()
+		}
+		goesOn := p.End == pathx.KReturn && retErr(p, len(p.Events)-1) == triNil
+		for i := range p.Events {
+			if e := &p.Events[i]; e.Kind == pathx.KSend && pathx.RoleOfValue(e.Chan).Key() == "outbound.queue" {
+				goesOn = true
+			}
+		}
+		// (the counters follow the construction of the client: only segments that contain it are judged)
+		built := p.Index(0, func(e *pathx.Event) bool { return e.Kind == pathx.KCall && e.Callee != nil && e.Callee.Name() == "newClient" }) >= 0
+		if goesOn && built {
+			cov := get("non-empty-list⇒its-counters-installed")
+			switch {
+			case nonEmpty[listALO] && stored["acceptN:atLeastOnce"] == nil:
+				cov.fail(p, len(p.Events)-1, "at-least-once PUBLISH records are pending on this path, yet the at-least-once counters are not installed: nothing is retransmitted and the placeholders never complete")
+			case (nonEmpty[listEO] || nonEmpty[listREL]) && stored["acceptN:exactlyOnce"] == nil:
+				cov.fail(p, len(p.Events)-1, "exactly-once records are pending on this path (PUBLISH: %v, PUBREL: %v), yet the exactly-once counters are not installed: nothing is retransmitted and the placeholders never complete", nonEmpty[listEO], nonEmpty[listREL])
+			case nonEmpty[listALO] || nonEmpty[listEO] || nonEmpty[listREL]:
+				cov.pass()
 			}
 		}
 	}
-	want := map[string]int{"Acked=first(ALO)": 1, "atLeastOnce.acceptN=last(ALO)+1": 1, "Completed=first(REL|EO)": 2, "Received=last(REL)+1|Completed": 2, "exactlyOnce.acceptN=last(EO|REL)+1": 2, "submitN=acceptN": 2}
+	want := map[string]int{"non-empty-list⇒its-counters-installed": 2, "Acked=first(ALO)": 1, "atLeastOnce.acceptN=last(ALO)+1": 1, "Completed=first(REL|EO)": 2, "Received=last(REL)+1|Completed": 2, "exactlyOnce.acceptN=last(EO|REL)+1": 2, "submitN=acceptN": 2}
 	for n, a := range accs {
 		a.done(want[n], "holds on every path that installs the counter")
+	}
+}
+
+// ---- adjacency, decided on test vectors ----
+//
+// "Adjacent" — identifier n follows identifier p — is (n-p == 1) or the wrap
+// (n == 0 and p == publishIDMask). Both places that use it (the scan of
+// cleanSequence, the PUBREL→PUBLISH junction of AdoptSession) touch n and p
+// only through comparisons with constants, so each is decided exactly on a
+// handful of representative pairs: for every pair the paths whose comparisons
+// the pair satisfies must keep the records when the pair is adjacent and drop
+// (warn) when it is not.
+
+type adjLeaf int
+
+const (
+	leafNone adjLeaf = iota
+	leafN
+	leafP
+)
+
+// pathBindings: parameter → argument for the callees expanded in place on p.
+func pathBindings(p *pathx.Path) map[ssa.Value]ssa.Value {
+	out := map[ssa.Value]ssa.Value{}
+	for i := range p.Events {
+		e := &p.Events[i]
+		if e.Kind != pathx.KEnter || i == 0 {
+			continue
+		}
+		call := &p.Events[i-1]
+		if call.Kind != pathx.KCall || call.Callee != e.Callee {
+			continue
+		}
+		for k, pr := range e.Callee.Params {
+			if k < len(call.Args) {
+				out[pr] = call.Args[k]
+			}
+		}
+	}
+	return out
+}
+
+// adjDecide evaluates the assumed comparisons of p over n and p's values.
+// sat: every comparison that could be evaluated holds; used: at least one was.
+func adjDecide(p *pathx.Path, fn *ssa.Function, classify func(v ssa.Value) adjLeaf, n, pv uint64, from, upto int) (sat, used bool) {
+	choice := phiChoices(p, fn)
+	binds := pathBindings(p)
+	var eval func(v ssa.Value, d int) (uint64, bool)
+	eval = func(v ssa.Value, d int) (uint64, bool) {
+		if d > 16 || v == nil {
+			return 0, false
+		}
+		v = stripConv(v)
+		switch classify(v) {
+		case leafN:
+			return n, true
+		case leafP:
+			return pv, true
+		}
+		switch x := v.(type) {
+		case *ssa.Const:
+			if k, ok := intConst(x); ok {
+				return uint64(k), true
+			}
+		case *ssa.Parameter:
+			if b, ok := binds[x]; ok {
+				return eval(b, d+1)
+			}
+		case *ssa.Phi:
+			if e, ok := choice[x]; ok {
+				return eval(e, d+1)
+			}
+		case *ssa.BinOp:
+			a, ok1 := eval(x.X, d+1)
+			b, ok2 := eval(x.Y, d+1)
+			if !ok1 || !ok2 {
+				return 0, false
+			}
+			switch x.Op {
+			case token.SUB:
+				return a - b, true
+			case token.ADD:
+				return a + b, true
+			case token.AND:
+				return a & b, true
+			}
+		}
+		return 0, false
+	}
+	sat = true
+	for i := from; i < upto && i < len(p.Events); i++ {
+		e := &p.Events[i]
+		if e.Kind != pathx.KAssume {
+			continue
+		}
+		cm, ok := cmpOf(e.Val, e.Truth)
+		if !ok {
+			continue
+		}
+		a, ok1 := eval(cm.X, 0)
+		b, ok2 := eval(cm.Y, 0)
+		if !ok1 || !ok2 {
+			continue
+		}
+		used = true
+		var h bool
+		switch cm.Op {
+		case token.EQL:
+			h = a == b
+		case token.NEQ:
+			h = a != b
+		case token.LSS:
+			h = a < b
+		case token.LEQ:
+			h = a <= b
+		case token.GTR:
+			h = a > b
+		case token.GEQ:
+			h = a >= b
+		}
+		if !h {
+			sat = false
+		}
+	}
+	return sat, used
+}
+
+func mustBinOp(v ssa.Value) *ssa.BinOp {
+	for {
+		u, ok := v.(*ssa.UnOp)
+		if !ok || u.Op != token.NOT {
+			break
+		}
+		v = u.X
+	}
+	b, _ := v.(*ssa.BinOp)
+	if b == nil {
+		return &ssa.BinOp{}
+	}
+	return b
+}
+
+func (c *Ctx) adjVectors() [][3]uint64 {
+	pm := uint64(c.constInt("publishIDMask"))
+	return [][3]uint64{{5, 4, 1}, {0, pm, 1}, {1, 0, 1}, {pm, pm - 1, 1}, {7, 4, 0}, {0, 4, 0}, {5, pm, 0}, {4, 4, 0}, {3, 4, 0}, {0, 0, 0}, {pm, 0, 0}, {1, pm, 0}}
+}
+
+// adp8Adjacency judges the scan of cleanSequence on the vectors.
+func (c *Ctx) adp8Adjacency(clean *ssa.Function, a *acc) {
+	pm := c.constInt("publishIDMask")
+	// n = keys[i] & mask, p = keys[i-1] & mask
+	classify := func(v ssa.Value) adjLeaf {
+		bo, ok := v.(*ssa.BinOp)
+		if !ok || bo.Op != token.AND || !isK(bo.Y, pm) {
+			return leafNone
+		}
+		u, ok := stripConv(bo.X).(*ssa.UnOp)
+		if !ok || u.Op != token.MUL {
+			return leafNone
+		}
+		ia, ok := u.X.(*ssa.IndexAddr)
+		if !ok {
+			return leafNone
+		}
+		if sub, ok := stripConv(ia.Index).(*ssa.BinOp); ok && sub.Op == token.SUB && isK(sub.Y, 1) {
+			return leafP
+		}
+		return leafN
+	}
+	for _, vec := range c.adjVectors() {
+		kept, dropped := 0, 0
+		var bad *pathx.Path
+		for _, p := range c.Paths("ADP-8", clean) {
+			if p.End != pathx.KLoopBack {
+				continue
+			}
+			sat, used := adjDecide(p, clean, classify, vec[0], vec[1], 0, len(p.Events))
+			if !used || !sat {
+				continue
+			}
+			drop := p.Index(0, func(e *pathx.Event) bool { return isAppendTo(e, "[]error") }) >= 0
+			if drop {
+				dropped++
+			} else {
+				kept++
+			}
+			if drop == (vec[2] == 1) {
+				bad = p
+			}
+		}
+		switch {
+		case kept+dropped == 0:
+			a.failAt(c.P.Pos(clean.Pos()), "no iteration of the scan decides the pair (n=%d, p=%d): the adjacency test was not recognised", vec[0], vec[1])
+		case bad != nil:
+			a.fail(bad, len(bad.Events)-1, "for identifiers p=%d followed by n=%d the scan %s, want %s: 'adjacent' is n-p == 1 or the wrap from publishIDMask to 0", vec[1], vec[0], map[bool]string{true: "keeps the records", false: "reports a gap"}[vec[2] == 0], map[bool]string{true: "a gap", false: "no gap"}[vec[2] == 0])
+		default:
+			a.pass()
+		}
+	}
+}
+
+// adp4Junction judges the PUBREL→PUBLISH junction of AdoptSession on the vectors.
+func (c *Ctx) adp4Junction(ad *ssa.Function, a *acc, lc *listClasses, kinds map[ssa.Value]listKind) {
+	pm := c.constInt("publishIDMask")
+	for _, vec := range c.adjVectors() {
+		kept, dropped := 0, 0
+		var bad *pathx.Path
+		for _, p := range c.Paths("ADP-9", ad) {
+			choice := phiChoices(p, ad)
+			expand := func(v ssa.Value) ssa.Value {
+				for d := 0; d < 20; d++ {
+					v = stripConv(v)
+					phi, ok := v.(*ssa.Phi)
+					if !ok || choice[phi] == nil {
+						break
+					}
+					v = choice[phi]
+				}
+				return v
+			}
+			// n = first(EO) & mask, p = last(REL) & mask
+			classify := func(v ssa.Value) adjLeaf {
+				bo, ok := v.(*ssa.BinOp)
+				if !ok || bo.Op != token.AND || !isK(bo.Y, pm) {
+					return leafNone
+				}
+				u, ok := expand(bo.X).(*ssa.UnOp)
+				if !ok || u.Op != token.MUL {
+					return leafNone
+				}
+				ia, ok := u.X.(*ssa.IndexAddr)
+				if !ok {
+					return leafNone
+				}
+				base := expand(ia.X)
+				if base == nil || !isUintList(base.Type()) {
+					return leafNone
+				}
+				switch kinds[lc.find(base)] {
+				case listEO:
+					if isK(expand(ia.Index), 0) {
+						return leafN
+					}
+				case listREL:
+					if sub, ok := expand(ia.Index).(*ssa.BinOp); ok && sub.Op == token.SUB && isK(sub.Y, 1) {
+						return leafP
+					}
+				}
+				return leafNone
+			}
+			// the junction decision ends where the counters begin: stop at the first counter store / newClient
+			upto := len(p.Events)
+			for i := range p.Events {
+				e := &p.Events[i]
+				if e.Kind == pathx.KCall && e.Callee != nil && e.Callee.Name() == "newClient" {
+					upto = i
+					break
+				}
+			}
+			sat, used := adjDecide(p, ad, classify, vec[0], vec[1], 0, upto)
+			if !used || !sat {
+				continue
+			}
+			// both n and p must have been consulted (a path that compared only one of them decides nothing)
+			usedN, usedP := false, false
+			for i := 0; i < upto; i++ {
+				e := &p.Events[i]
+				if e.Kind != pathx.KAssume {
+					continue
+				}
+				var walk func(v ssa.Value, d int)
+				binds := pathBindings(p)
+				walk = func(v ssa.Value, d int) {
+					if d > 10 || v == nil {
+						return
+					}
+					v = stripConv(v)
+					switch classify(v) {
+					case leafN:
+						usedN = true
+						return
+					case leafP:
+						usedP = true
+						return
+					}
+					switch x := v.(type) {
+					case *ssa.BinOp:
+						walk(x.X, d+1)
+						walk(x.Y, d+1)
+					case *ssa.Parameter:
+						walk(binds[x], d+1)
+					case *ssa.Phi:
+						walk(choice[x], d+1)
+					case *ssa.UnOp:
+						if x.Op == token.NOT {
+							walk(x.X, d+1)
+						}
+					}
+				}
+				walk(e.Val, 0)
+			}
+			if !usedN || !usedP {
+				continue
+			}
+			drop := false
+			for i := 0; i < upto; i++ {
+				if isAppendTo(&p.Events[i], "[]error") {
+					// a warning that names the junction: issued after both were consulted
+					drop = true
+				}
+			}
+			if drop {
+				dropped++
+			} else {
+				kept++
+			}
+			if drop == (vec[2] == 1) {
+				bad = p
+			}
+		}
+		switch {
+		case kept+dropped == 0:
+			a.failAt(c.P.Pos(ad.Pos()), "no path of AdoptSession decides the PUBREL→PUBLISH junction for (n=%d, p=%d): the continuity test between the last PUBREL and the first exactly-once PUBLISH was not recognised", vec[0], vec[1])
+		case bad != nil:
+			a.fail(bad, len(bad.Events)-1, "with the last PUBREL p=%d and the first exactly-once PUBLISH n=%d the junction %s, want %s", vec[1], vec[0], map[bool]string{true: "is accepted", false: "drops the PUBREL records"}[vec[2] == 0], map[bool]string{true: "a gap (drop)", false: "continuity"}[vec[2] == 0])
+		default:
+			a.pass()
+		}
 	}
 }
